@@ -1755,6 +1755,10 @@ class Exec:
                 ci, fn = source.find_method(cell.cls, '__getitem__')
                 if fn is not None:       # obj[key]  ->  type(obj).__getitem__(obj, key)
                     return self.call(FuncV('method', (ci, fn), self_val=base), [self.eval(sl, st)], {}, st, node)
+        if isinstance(base, AbsObj):
+            h = self.unit.abstract.get('%s.__getitem__' % base.cls)
+            if h is not None:       # abstract object: obj[key] by the assumed contract of its __getitem__
+                return h(self, st, base, [self.eval(sl, st)], {}, node)
         raise Unsupported('subscript of %r at line %d' % (base, node.lineno))
 
     def parse_index(self, sl, a, st, node, pre=None):
